@@ -196,6 +196,13 @@ def source_hash(mod, node):
     return hashlib.sha256(mod.segment(node).encode("utf-8")).hexdigest()[:16]
 
 
+def loop_header(n):
+    """source text of a loop header: the anchor loop specifications are re-attached by (see loop_anchors.json)"""
+    if isinstance(n, ast.For):
+        return "for %s in %s" % (ast.unparse(n.target), ast.unparse(n.iter))
+    return "while %s" % ast.unparse(n.test)
+
+
 def loops_in(node):
     """loops of a function body in source order (not descending into nested defs)."""
     out = []
